@@ -167,7 +167,11 @@ func init() {
 			`sum by (l) (a offset -30s)`, `rate(a[90s] @ 100.000 offset 30s)`, `sum by (l) (last_over_time(a[1m]))`,
 			// unary plus and parentheses between an aggregation and its selector
 			`sum by (l) (+a)`, `sum(+a)`, `max without (m) (+a)`, `quantile by (l) (0.5, +a)`, `abs(+a)`, `+(a)`, `sum by (l) (+(a))`, `sum by (l) (+sum by (l, m) (a))`,
-			`topk by (l) (1, +a)`, `sum by (l) (+rate(a[1m]))`, `sum by (l) (-(+a))`, `count without (l) (+a offset 30s)`} {
+			`topk by (l) (1, +a)`, `sum by (l) (+rate(a[1m]))`, `sum by (l) (-(+a))`, `count without (l) (+a offset 30s)`,
+			// a pinned selector inside an aggregation parameter, and as the vector argument of a
+			// function whose other argument varies per step
+			`topk(scalar(b{l="0"} @ 100.000), a)`, `quantile(scalar(b{l="0"} @ 45.000) / 10, a)`, `clamp_min(a @ end(), scalar(b{l="0"}))`, `clamp_max(-a @ 45.000, scalar(b{l="0"}))`,
+			`histogram_quantile(scalar(b{l="0"}) / 10, a @ end())`, `clamp(a @ start() offset 30s, scalar(b{l="0"}), 100)`} {
 			if cq := gen.Canon(q); cq != "" && !f.Has(cq) && !k.Has(cq) {
 				qs = append(qs, cq)
 			}
